@@ -32,6 +32,7 @@ RULE = ('Hypothesis-generated programs (in / with / let / if / unless / try '
 RULE += (
          'Batch-link forms (previous / next else parts, batch bodies) '
          'among the enumerated blocks. ')
+RULE += ("Round 8: templates that render themselves from inside every binding block and try form until the interpreter's recursion limit (8 alignments) is reached. ")
 ASSUMPTIONS = [
     'faults are exceptions / dtml-return raised by namespace values (the '
     'quantifier of the property); RecursionError from exhausting the '
